@@ -32,6 +32,7 @@ type siteInfo struct {
 	Flow FlowResult
 	All  []Lit
 	used map[string]string // literal -> role it was accepted for
+	Dead string            // non-empty: the path condition of this site (in this calling context) is contradictory
 }
 
 func (c *Ctx) isReporterTerminal(ci ssa.CallInstruction, arg int) bool {
@@ -80,6 +81,13 @@ func (c *Ctx) buildSiteInfo(s *ReportSite) *siteInfo {
 		// entry guards of every function the value passes through are part of the path condition as well
 	}
 	si.All = P.Expand(all.list())
+	for _, l := range si.All {
+		// x != x on the way: this calling context can never produce the violation (e.g. a shared finder called
+		// with the current package as the declaring package)
+		if l.Kind == "eq" && !l.Pos && l.X != nil && l.Y != nil && P.KeyDesc(l.X) == P.KeyDesc(l.Y) && !strings.Contains(P.KeyDesc(l.X), "cycle") {
+			si.Dead = short(l.String())
+		}
+	}
 	return si
 }
 
